@@ -37,6 +37,7 @@ class CState:
         self.hello = None       # outcome of the handshake: 'ack' | 'closed' | None
         self.accepted = False
         self.closed_by_us = None
+        self.closed_round = None
         self.dropped = False    # model/observation says the manager removed it
         self.sent_frames = 0
         self.consumed = 0
@@ -150,6 +151,7 @@ class Scenario:
             how = st[2] if len(st) > 2 else "fin"
             self.rig.settle()  # everything written to this client so far is in its byte log before we close
             cs.closed_by_us = how
+            cs.closed_round = len(self.rounds)
             cs.wc.close(rst=(how == "rst"))
             cs.pending.append({"kind": "eof", "how": how})
             m = self.model.get(cs.addr)
